@@ -41,6 +41,8 @@ def evaluate_with(script, prop_id, quick_scale=0.25, thorough_scale=1.0, extra_e
         res = run_script(script, ctx, scale, extra_env)
         ctx.say("[difftest] %s scale=%s: %s (rc=%d)" % (script, scale, res["summary"], res["rc"]))
         ctx.extra.setdefault("difftest_runs", []).append({"script": script, "scale": scale, "summary": res["summary"]})
+        ctx.extra["dt_cases"] = ctx.extra.get("dt_cases", 0) + res["ncases"]
+        ctx.extra["dt_samples"] = [l for l in res["tail"].split("\n") if l.strip()][-12:]
         conc, corr = [], []
         if res["nmis"] < 0:
             corr.append({"op": script, "c_out": "", "why": "differential test script did not complete", "model_out": res["tail"][-1500:]})
